@@ -146,6 +146,11 @@ def same_float(a, b):
     return math.isclose(a, b, rel_tol=1e-12)
 
 
+def coeff_free(expr):
+    """the expression carries no numeric coefficient (rational, float or irrational)"""
+    return not any(f.is_number for f in sympy.Mul.make_args(expr))
+
+
 def reparse(u, text):
     """'same' or a description of how Unit(text) fails to denote `u`"""
     try:
@@ -161,7 +166,7 @@ def reparse(u, text):
         bad.append("scale")
     if not math.isnan(u.base_value) and not (v == u):
         bad.append("eq")
-    if u.expr.as_coeff_Mul()[0] == 1:
+    if coeff_free(u.expr):
         if v.expr != u.expr:
             bad.append("expr")
         elif hash(v) != hash(u):
@@ -205,7 +210,7 @@ def escape_trigger(s):
 
 def describe(u):
     """everything the parent needs to know about a successfully built unit"""
-    d = {"r": "ok", "kind": unit_kind(u), "expr": exact(u.expr), "coeff1": bool(u.expr.as_coeff_Mul()[0] == 1)}
+    d = {"r": "ok", "kind": unit_kind(u), "expr": exact(u.expr), "coeff1": coeff_free(u.expr)}
     try:
         d["str"] = str(u)
         d["repr"] = repr(u)
